@@ -331,13 +331,33 @@ impl Scenario for C07 {
             ThreadPlan { chan_ids: vec![Some(1)], ops: vec![(0, Op::Consume { queue: "q".into(), no_local: false, no_ack: true, exclusive: false, args: 0, via_queue: false }), (0, Op::Drain { slot: 0, max: None, acks: vec![], via_consumer: false })], close_channels: true },
             ThreadPlan { chan_ids: vec![Some(2)], ops: vec![(0, Op::Gate(1)), (0, Op::Qos { size: 0, count: 1, global: false })], close_channels: true },
         ];
+        // a third of the cases: a third thread is in the middle of publishing over a transport that takes a few
+        // bytes per write and blocks now and then, so the violation meets a half-written outgoing frame: the
+        // client's Connection.Close must still be the last *whole* frame of a stream of whole frames
+        let mut threads = threads;
+        let mut net = NetCfg { c2s_lat_min_ns: 1_000, c2s_lat_max_ns: 1_000, ..NetCfg::default() };
+        let busy_writer = cs.choose("c07_busy_writer", 3) == 0;
+        if busy_writer {
+            let mut ops = vec![(0usize, Op::Gate(2))];
+            for i in 0..4 {
+                ops.push((0, Op::Publish { exchange: "".into(), rk: format!("w{}", i), mandatory: false, immediate: false, props: 0, body_len: 30_000, via_exchange: false }));
+            }
+            threads.push(ThreadPlan { chan_ids: vec![Some(3)], ops, close_channels: true });
+            net.wr_cap = 1 + cs.choose("c07_wr_cap", 200) as usize;
+            net.wr_block_permille = 150;
+            net.wr_block_max_ns = 400_000;
+        }
         let plan = SessionPlan { opts: ConnOpts::default(), tuning: Tuning::default(), threads, owner_ops: vec![], close: CloseKind::Close, join_before_close: true };
         let mut sched = SchedCfg::default();
         sched.stick_pct = *pick(&mut cs, "stick", &[90u32, 50]);
         sched.hang_after_ns = 20_000_000_000;
-        let gen = Generated { plan, net: NetCfg { c2s_lat_min_ns: 1_000, c2s_lat_max_ns: 1_000, ..NetCfg::default() }, broker, sched, frame_max: 131072 };
+        if busy_writer {
+            sched.step_cap = 3_000_000;
+        }
+        let gen = Generated { plan, net, broker, sched, frame_max: 131072 };
         let (res, world) = run_generated(&gen, cs, text, move |_| {
             crate::world::call_in(t0 + 50_000_000, |_| amiquip_simrt::gate_open(1));
+            crate::world::call_in(t0 - 300_000, |_| amiquip_simrt::gate_open(2));
         });
         let mut rep = CaseReport::default();
         fill_common(&mut rep, &res, &world);
@@ -415,6 +435,7 @@ impl Scenario for C07 {
                 }
             }
         }
+        rep.count("c07.busy_writer_cases", busy_writer as u64);
         let giant = letters.iter().any(|l| matches!(l, Letter::Header { size, .. } if *size >= 1 << 31));
         rep.count("c07.giant_announced_size", giant as u64);
         rep.count("c07.safety_only", model.safety_only as u64);
